@@ -390,6 +390,21 @@ def _fam_sphere(rng, n, spec):
     return f, g, dict(convex=False, complex_safe=True, cf=lambda x: np.sum(x**2))
 
 
+def _fam_quantized(rng, n, spec):
+    """A smooth QP reported with finite resolution (plateaus): trial values can tie with the start value exactly."""
+    A = rand_spd(rng, n, float(spec.get("cond", 30.0)))
+    b = rng.standard_normal(n)
+    q = float(2.0 ** rng.integers(0, 10))
+
+    def f(x):
+        return float(np.round((0.5 * (x @ (A @ x)) - b @ x) * q) / q)
+
+    def g(x):
+        return A @ x - b
+
+    return f, g, dict(convex=False, complex_safe=False)
+
+
 _FAMILIES = {
     "qp": _fam_qp,
     "qp_quartic": _fam_qp_quartic,
@@ -405,6 +420,7 @@ _FAMILIES = {
     "badly_scaled": _fam_badly_scaled,
     "quartic": _fam_quartic,
     "sphere": _fam_sphere,
+    "quantized": _fam_quantized,
 }
 
 
